@@ -697,6 +697,8 @@ class CallMixin:
             if short in ('floor', 'ceil') and not fr.is_cython and name in ('floor', 'ceil') and False:
                 return z3.ToInt(r)
             return r
+        if name == '__addr__':
+            return args[0]          # &x handed to a C API: only the value matters here
         if name == '__cast__':
             ct, v = args
             if isinstance(v, Obj) or v is None:
